@@ -222,6 +222,22 @@ fn enumerate_mapping(run: u64, mapping: &[u8], st: &mut Stats, vs: &mut Vec<Viol
                 let plan = SinkPlan { cap, faults: vec![Fault { at: i, kind }], disk_capacity: None };
                 check_one(&cx, &plan, st, vs, &mut nontrivial);
             }
+            if matches!(cap, Some(3) | None) {
+                // two faults at adjacent calls (what a retry path meets right after the first fault)
+                let pairs = [
+                    (FaultKind::Short(0x5bd1_e995), FaultKind::Interrupted(1)),
+                    (FaultKind::Interrupted(1), FaultKind::Short(0x1b87_3593)),
+                    (FaultKind::Short(0x85eb_ca6b), FaultKind::Short(0xc2b2_ae35)),
+                    (FaultKind::Zero(false), FaultKind::Short(0x27d4_eb2f)),
+                    (FaultKind::Short(0x1656_67b1), FaultKind::Hard(ErrK::BrokenPipe, true)),
+                    (FaultKind::Interrupted(2), FaultKind::Hard(ErrK::StorageFull, false)),
+                    (FaultKind::Short(0x9e37_79b9), FaultKind::Zero(true)),
+                ];
+                for (a, b) in pairs {
+                    let plan = SinkPlan { cap, faults: vec![Fault { at: i, kind: a }, Fault { at: i + 1, kind: b }], disk_capacity: None };
+                    check_one(&cx, &plan, st, vs, &mut nontrivial);
+                }
+            }
             if cap.is_none() {
                 // the unchunked sink has one call per section: every error kind at every call
                 for k in ErrK::ALL {
@@ -461,7 +477,7 @@ pub fn main(env: &Env) -> i32 {
         let n_total = n_gen + corpus.len() as u64 + 1 + n_large;
         rep.rule = format!(
             "per mapping ({} seeded-generated with 0..6 classes x 0..8 members, {} small corpus files, 1 hand-written padding case): fault-free control; every chunk cap 1..16; \
-             for caps {{1,3,4,7,inf}} EVERY sink call index x {{short-once, Interrupted x1, Interrupted x3, hard sticky, hard transient, soft transient, Ok(0) once, Ok(0) forever}}; \
+             for caps {{1,3,4,7,inf}} EVERY sink call index x {{short-once, Interrupted x1, Interrupted x3, hard sticky, hard transient, soft transient, Ok(0) once, Ok(0) forever}}; for caps {{3,inf}} also 7 two-fault pairs at adjacent calls (i, i+1) and for cap inf every error kind sticky/transient at every call; \
              disk-full at EVERY capacity 0..len for caps {{inf,1,5}}. Exhaustive for each mapping over that single-fault space. \
              Plus 32 large-section mappings (wide classes of 70..150 methods, or 150..260 classes): every chunk cap 1..16 fault-free and 160 seeded multi-fault plans each. \
              distinct_nontrivial = executions (distinct by construction per distinct mapping) in which a fault fired or the cap truncated a call.",
